@@ -5,10 +5,11 @@ Two models, both executable, core Lean only (linked into `bsmodel`).
 
 * **Writer model** (`Dap.Writer`): the three threads that write to the transport — the session
   thread (id 0), the stdout forwarder (1) and the stderr forwarder (2) — each performing the two
-  atomic steps the code performs for every message: *allocate* a sequence number
-  (`server_seq.fetch_add(1)`; `send_response_raw`, `send_event_raw` and both forwarder loops take it
-  **before** `self.io.lock()`), then *lock the transport and write*.  A schedule is a list of writer
-  ids; a writer's steps alternate allocate / write.
+  atomic steps the code performs for every message: *lock the transport and allocate* a sequence
+  number (`next_seq(server_seq, locked transport)`: `send_response_raw`, `send_event_raw` and the
+  forwarder loop take it **while they hold** `io.lock()`), then *write and unlock*.  A schedule is a
+  list of writer ids; a writer's steps alternate allocate / write; a writer scheduled while another
+  one holds the lock is blocked (its step does nothing).
 * **Session model** (`Dap.Session`): the internal event queue, `drain_events` (lifecycle dominance,
   `terminated` latch, `emit_process_end`) and the per-command handler skeletons of `dispatch` —
   the order of {validate arguments, fallible debugger call, send response, enqueue events, drain} —
@@ -32,43 +33,73 @@ structure WMsg where
   label : Nat := 0
   deriving Repr, DecidableEq
 
-/-- shared state: the atomic counter (`server_seq`, starts at 1), per writer the number it has
-allocated and not yet written, and the wire (in write order = order of `io.lock()` acquisition) -/
+/-- shared state: the atomic counter (`server_seq`, starts at 1), who holds the transport lock
+together with the number it took under it (not yet written), and the wire (in write order) -/
 structure St where
   next : Nat := 1
-  pending : Nat → Option Nat := fun _ => none
+  holder : Option (Nat × Nat) := none
   wire : List WMsg := []
 
-/-- one atomic step of writer `w`: allocate if it holds no number, otherwise lock + write -/
+/-- one atomic step of writer `w`: lock + allocate if the transport is free; write + unlock if `w`
+holds the lock; blocked (nothing happens) while another writer holds it.  (As found, the number was
+taken BEFORE the lock: writer 1 allocates 1, writer 0 allocates 2 and writes, writer 1 writes — the
+wire read `2,1`; `corpus/C12/forwarder-late.req` forces that schedule and must no longer reorder.) -/
 def step (s : St) (w : Nat) : St :=
-  match s.pending w with
-  | none => { s with next := s.next + 1, pending := fun v => if v = w then some s.next else s.pending v }
-  | some n => { s with pending := fun v => if v = w then none else s.pending v,
-                       wire := s.wire ++ [{ writer := w, seq := n }] }
+  match s.holder with
+  | none => { s with next := s.next + 1, holder := some (w, s.next) }
+  | some (v, n) =>
+    if v = w then { s with holder := none, wire := s.wire ++ [{ writer := w, seq := n }] } else s
 
 def run (sched : List Nat) : St := sched.foldl step {}
 
 /-- the sequence numbers in wire order -/
 def wireSeqs (sched : List Nat) : List Nat := (run sched).wire.map (·.seq)
 
-/-- the repaired discipline: the number is taken while the transport lock is held, i.e. allocate and
-write are one atomic step -/
-def stepLocked (s : St) (w : Nat) : St :=
-  { s with next := s.next + 1, wire := s.wire ++ [{ writer := w, seq := s.next }] }
-
-def runLocked (sched : List Nat) : St := sched.foldl stepLocked {}
-
 /-- `[a, a+1, …, a+n-1]` -/
 def iota (a : Nat) : Nat → List Nat
   | 0 => []
   | n + 1 => a :: iota (a + 1) n
 
-/-- a schedule in which no writer allocates while another one holds an unwritten number
-("single writer at a time"): every allocation step is immediately followed by the same writer's write -/
-def serial : List Nat → Bool
+/-! ### The `terminated` latch shared with the forwarders
+
+`DebugSession::terminated` is an `Arc<AtomicBool>` shared with both forwarder threads.  The session sets
+it (no lock needed) BEFORE it writes `terminated`; a forwarder looks at it AFTER it has locked the
+transport and writes nothing when it is set (`spawn_output_forwarder`).  Steps of this model: -/
+
+inductive LAct
+  | lock (w : Nat)     -- writer `w` locks the transport (a forwarder then reads the latch)
+  | write (w : Nat)    -- writer `w`, holding the lock, writes its message (if it decided to) and unlocks
+  | setLatch           -- the session stores `true` into the latch
+  deriving Repr, DecidableEq
+
+/-- `holder`: who holds the transport lock and whether it is going to write; `wire`: the writer of each
+message together with the value of the latch when a SESSION message was written (`(0, true)` = a session
+message written after the latch was set, e.g. `terminated` itself) -/
+structure LSt where
+  latch : Bool := false
+  holder : Option (Nat × Bool) := none
+  wire : List (Nat × Bool) := []
+
+def lstep (s : LSt) : LAct → LSt
+  | .setLatch => { s with latch := true }
+  | .lock w =>
+    match s.holder with
+    | none => { s with holder := some (w, w = 0 || !s.latch) }   -- the session always writes
+    | some _ => s                                                -- blocked
+  | .write w =>
+    match s.holder with
+    | some (v, go) =>
+      if v = w then
+        { s with holder := none, wire := if go then s.wire ++ [(w, w = 0 && s.latch)] else s.wire }
+      else s
+    | none => s
+
+def lrun (acts : List LAct) : LSt := acts.foldl lstep {}
+
+/-- nothing but session messages after a session message that was written with the latch set -/
+def quietAfterLatched : List (Nat × Bool) → Bool
   | [] => true
-  | [_] => true
-  | a :: b :: rest => a == b && serial rest
+  | (w, l) :: rest => if w = 0 && l then rest.all (fun m => m.1 = 0) else quietAfterLatched rest
 
 end Writer
 
@@ -159,12 +190,13 @@ inductive QEv
   | threadStarted (t : Nat) | threadExited (t : Nat)
   | stopped (reason : String) | continued | bpChanged | bpRemoved
   | progressStart (n : Nat) | progressUpdate (n : Nat) | progressEnd (n : Nat) | invalidated
+  | initialized          -- `InternalEvent::Initialized`, queued by `handle_initialize`
   deriving Repr, DecidableEq
 
 /-- events as they appear on the wire -/
 inductive Ev
   | q (e : QEv)          -- from the queue
-  | initialized          -- `send_event("initialized")` in `handle_initialize`: never queued
+  | initialized          -- as found `initialized` was sent directly, past the queue; now it is `q .initialized` (kept for the monitors)
   | moduleRemoved | sourceRemoved | threadExitedAtEnd (t : Nat)  -- `emit_process_end` (direct sends inside `drain_events`)
   | exited | terminated  -- lifecycle, only from `drain_events`
   deriving Repr, DecidableEq
@@ -256,7 +288,6 @@ def removeSet (n : Nat) (l : List Nat) : List Nat := l.filter (· != n)
 /-- the atomic actions a handler is made of: its *skeleton* is a list of these -/
 inductive Act
   | respond (ok : Bool)      -- `send_response_raw` for the request being handled
-  | sendInitialized          -- `send_event("initialized")`: the only event sent without going through the queue
   | enq (es : List IEv)      -- `enqueue_event` (several)
   | drain                    -- `drain_events()`
   | refresh (tl : List Nat)  -- `refresh_threads_with_events()` with the list the debugger reports
@@ -279,7 +310,6 @@ inductive Act
 
 def execAct (r : Req) (s : Sess) : Act → Sess × List Msg
   | .respond ok => (s, [.resp r.cmd ok r.seq])
-  | .sendInitialized => (s, [.event .initialized])
   | .enq es => ({ s with queue := s.queue ++ es }, [])
   | .drain => drain s
   | .refresh tl => ({ s with queue := s.queue ++ refreshEvents s.threadCache tl, threadCache := dedup tl }, [])
@@ -391,7 +421,7 @@ handler's result. -/
 def plan (s : Sess) (r : Req) (h : Hint) : List Act × HRes :=
   let dbg := s.dbg
   match r.cmd with
-  | .initialize => ([.respond true, .sendInitialized], .ok)   -- `send_event`: not queued
+  | .initialize => ([.respond true, .enq [.ev .initialized], .drain], .ok)   -- queued: behind the latch
   | .launch =>
     if badArgs r.cmd r.mutn then ([], .err)
     else if r.mutn == .nofile then
@@ -469,11 +499,18 @@ def plan (s : Sess) (r : Req) (h : Hint) : List Act × HRes :=
     if badArgs r.cmd r.mutn then ([], .err) else ([.respond true], .ok)
   | .setVariable => query (badArgs r.cmd r.mutn) true dbg h.callOk [.enq [.ev .invalidated], .drain]
   | .continue_ =>
-    -- the response is sent BEFORE the fallible debugger call (control.rs handle_continue)
-    let pre : List Act := [.enq [.ev .continued], .respond true, .drain]
-    if dbg != .inProgress then (pre, .err)
-    else match h.outcome with
-      | .none => (pre, .err)
+    -- the execution status is looked at first: no debugger / exited ⇒ `Err`; loaded but not started ⇒
+    -- accepted, nothing continues, no `continued`; in progress ⇒ the response and `continued` are sent
+    -- BEFORE the blocking debugger call, and a failure of that call (e.g. the debuggee was killed by a
+    -- signal behind the debugger's back) is announced as a stop, not as a second response
+    -- (control.rs handle_continue, emit_stop_reason_answered)
+    match dbg with
+    | .none | .exited => ([], .err)
+    | .unload => ([.respond true], .ok)
+    | .inProgress =>
+      let pre : List Act := [.enq [.ev .continued], .respond true, .drain]
+      match h.outcome with
+      | .none => (pre ++ manualStop "exception" h, .ok)
       | _ => (pre ++ emitStop h, .ok)
   | .restart =>
     if s.mode != .launch then ([.respond false], .ok)
@@ -616,8 +653,8 @@ inductive Life | fresh | exited | terminated
 * a `launch` / `attach` request opens a new lifecycle;
 * `exited` only in `fresh`, and `terminated` must follow before anything else is written or received;
 * `terminated` only in `fresh`/`exited` (at most once);
-* in `terminated` no event at all may be written (`strict`), or none except the non-queued
-  `initialized` (`strict = false`). -/
+* in `terminated` no event at all may be written (`strict`), or none except `initialized`
+  (`strict = false`: what the adapter did while `initialized` bypassed the queue). -/
 def lifeStep (strict : Bool) (st : Life) : Item → Option Life
   | .req .launch | .req .attach => if st == .exited then none else some .fresh
   | .msg (.event .exited) => if st == .fresh then some .exited else none
